@@ -30,15 +30,20 @@ Definition u_triage (a b c : upoint) : Z := Gen.S2Pred.s2_triageSign (upt a) (up
 (** the float tangent test exactly as edge_crosser.go computes it *)
 Definition u_tangent_raw (a b c d : upoint) : bool := x_tangent (upt a) (upt b) (upt c) (upt d).
 
-(** b == -a componentwise (Go ==): the fixed edge has EXACTLY antipodal endpoints. Such an "edge"
-    is not a geodesic edge (S2 forbids 180-degree edges): PointCross(a, -a) is the zero vector,
-    NewEdgeCrosser falls back to an arbitrary normal Ortho(a), and the tangent early exit is then
-    unrelated to the exact criterion ([H_TANGENT_unguarded_refuted] below). *)
+(** The fixed edge has EXACTLY antipodal endpoints: a and b are antiparallel as real vectors
+    (exact cross product zero, exact dot product negative; computed on exact dyadics).
+    b == -a componentwise is the special case of equal lengths; -(1,1,1)/sqrt 3 and
+    (1 - 2^-53)(1,1,1)/sqrt 3 are as much a 180-degree "edge". Such a pair is not a geodesic edge
+    (S2 forbids 180-degree edges): PointCross(a, b) is the zero vector, NewEdgeCrosser falls back
+    to an arbitrary normal Ortho(a), and the tangent early exit is then unrelated to the exact
+    criterion ([H_TANGENT_unguarded_refuted] below). *)
 Definition s2_neg (p : s2_Point) : s2_Point :=
   mk_s2_Point (mk_r3_Vector (PrimFloat.opp (r3_Vector_X (s2_Point_Vector p)))
                             (PrimFloat.opp (r3_Vector_Y (s2_Point_Vector p)))
                             (PrimFloat.opp (r3_Vector_Z (s2_Point_Vector p)))).
-Definition s2_antipodal (a b : s2_Point) : bool := s2_Point_eqb b (s2_neg a).
+Definition s2_antipodal (a b : s2_Point) : bool :=
+  pv_is_zero (pv_cross (pv_of_point a) (pv_of_point b)) &&
+  (dsgn (pv_dot (pv_of_point a) (pv_of_point b)) <? 0).
 Definition u_antipodal (a b : upoint) : bool := s2_antipodal (upt a) (upt b).
 
 (** the tangent test on the property's domain: geodesic fixed edges. On every edge that is not
@@ -215,3 +220,12 @@ Qed.
 (** and the witness is exactly what the guard excludes *)
 Example witness_is_antipodal : u_antipodal T_a T_b = true.
 Proof. vm_compute. reflexivity. Qed.
+
+(** componentwise negation is only the equal-length case of "exactly antipodal": found by the
+    observer (seed 3 of the round-2 sweep), same failure of the tangent exit *)
+Definition t_p : s2_Point := mk_s2_Point (mk_r3_Vector (-0x1.279a74590331dp-1) (-0x1.279a74590331dp-1) (-0x1.279a74590331dp-1)).
+Definition t_q : s2_Point := mk_s2_Point (mk_r3_Vector (0x1.279a74590331cp-1) (0x1.279a74590331cp-1) (0x1.279a74590331cp-1)).
+Example antiparallel_not_negation :
+  s2_Point_eqb t_q (s2_neg t_p) = false /\ s2_antipodal t_p t_q = true /\
+  r3_Vector_IsUnit (s2_Point_Vector t_p) = true /\ r3_Vector_IsUnit (s2_Point_Vector t_q) = true.
+Proof. vm_compute. repeat split; reflexivity. Qed.
